@@ -89,9 +89,14 @@ class RLock:
                           timeout_result=lambda: False))
         return _do(Op('rlock.acquire', self, ready, fire))
 
+    def locked(self):          # for the harness' projections (threading.RLock has no such method before 3.14)
+        return self._count > 0
+
     def release(self):
+        me = self._me()        # the caller (fire() is executed by the controller)
+
         def fire():
-            if self._count == 0 or self._owner != self._me():
+            if self._count == 0 or self._owner != me:
                 raise RuntimeError('cannot release un-acquired lock')
             self._count -= 1
             if self._count == 0:
